@@ -57,7 +57,7 @@ func swarm(rng *prng.Rand, w map[string]int, names []string, lo, hi int, pOff fl
 // Profile draws the configuration of one run of a property's check.
 // sub selects a sub-workload where a property has several (C20).
 func Profile(prop string, rng *prng.Rand, idx uint64) *GenCfg {
-	c := &GenCfg{W: map[string]int{}, ScalarFlav: make([]int, 8), EnumDraws: 1}
+	c := &GenCfg{W: map[string]int{}, ScalarFlav: make([]int, 9), EnumDraws: 1}
 	for i := range c.ScalarFlav {
 		c.ScalarFlav[i] = 1 + rng.Intn(4)
 		if rng.Bool(0.25) {
